@@ -23,7 +23,10 @@ LEVEL_NOTE = ("Partial: Pebble's LSM itself (memtable, sstable writer/reader, co
               "(bytewise Separator/Successor) and O-24 (Get(\"\", LOWER|FLOOR) returned the greatest key). "
               "DB layer (db.List / db.RangeScan / db.Get above kv.KV): no separate Coq model of db.go's iterator wrappers; the "
               "extracted kv_range_scan (c11_range_is_filter, c11_point_lookups_match_reference) is the reference for the "
-              "projection of the results on user keys, db.Get comparison types are spec verdicts only. Returned internal "
+              "projection of the results on user keys, db.Get comparison types are spec verdicts only. Response batcher: proved for "
+              "the model of BatchStreamOnce (flush errors not modelled); a message may exceed the byte budget by less than "
+              "its last item (proved; counted as an observation, not a verdict); no end-to-end case through the public RPC "
+              "server (no hook for List/RangeScan streams). Returned internal "
               "'__oxia/' keys are ignored and counted (reads do not filter internal keys: recorded observation outside C11).")
 TRUSTED = ["modelled not verified: Pebble v1.1.2 as an ordered map with bounded iterators given a lawful comparer "
            "(differentially tested on disk by the kvengine leg)",
@@ -39,7 +42,10 @@ RULE = ("keyorder: all ordered pairs of keys of length <= 2 over {. / 0 - a b 00
         "reads, flush/compact/reopen and four read phases; distinct by data set. "
         "dbscan: per -n one kv.DB with 36-75 user keys (flat, '/'-rooted, first segment below / around / above '__oxia') "
         "written by ProcessWrite, 14 fixed + 10 random ranges x List and RangeScan x 3 phases (memtable, flushed, reopened "
-        "after overwrites/deletes/range deletes), 20 probes x 5 comparison types; distinct by (phase, live keys, range)")
+        "after overwrites/deletes/range deletes), 20 probes x 5 comparison types; distinct by (phase, live keys, range). "
+        "respbatch: all size sequences of length <= 4 over {0,1,B-1,B,B+1} for B=4, then seeded sequences of 0..24 items for "
+        "budgets {1,2,5,10,64,1000,2 MiB}, count limit 0 or 1..5, 10% completed with an error; non-trivial = some item "
+        "reaches the budget alone, distinct by the whole input")
 LEGS = [
     {"name": "keyorder", "harness": "keyorder", "model": "keyorder", "n_quick": 30000, "n_thorough": 300000,
      "corpus": "corpus/keyorder", "timeout": 600, "timeout_thorough": 3000},
@@ -52,6 +58,14 @@ LEGS = [
     # verdicts dbscan:missing-key / dbscan:unexpected-key / dbscan:out-of-order / dbscan:wrong-value / dbget:differs-from-reference
     {"name": "dbscan", "harness": "kvengine", "model": "keyorder", "n_quick": 8, "n_thorough": 400,
      "corpus": "corpus/keyorder", "args": ["-mode", "db"], "timeout": 600, "timeout_thorough": 3000},
+    # the server-side response batcher between the engine's sorted iterator and the client (concurrent.BatchStreamOnce:
+    # Read / List / RangeScan answers, 2 MiB budget): real NewBatchStreamOnce on item-size sequences around the budget
+    # (0, 1, B-1, B, B+1, large runs, large after small, small after large, exactly filling; all sequences of length <= 4
+    # for B = 4), count limits, OnComplete(err), double OnComplete; the partition into messages is compared with the
+    # extracted batch_stream (c11_response_batches_preserve_order); verdicts respbatch:order-or-content-changed /
+    # respbatch:empty-batch / respbatch:complete-not-exactly-once / respbatch:error-not-propagated
+    {"name": "respbatch", "harness": "keyorder", "model": "keyorder", "n_quick": 20000, "n_thorough": 2000000,
+     "corpus": "corpus/keyorder", "args": ["-mode", "respbatch"], "timeout": 600, "timeout_thorough": 3000},
     # client-side merge of multi-shard range scans (harness and model owned by C20; theorem c11_merge_sorted): sorted
     # per-shard streams over the comparer-stressing alphabet, 2..5 shards, through aggregateAndSortRangeScanAcrossShards
     # directly and through clientImpl.RangeScan; compared with the extracted merge, verdicts scan:merged-out-of-slash-order
